@@ -93,6 +93,20 @@ Theorem C09_bufimage_final_pass_partial :
 Proof. exact bufimage_final_pass. Qed.
 Print Assumptions C09_bufimage_final_pass_partial.
 
+(* (5'') buffered-image mode, the documented display loop jpeg_start_output(cinfo, cinfo->input_scan_number)
+   started at ANY point of the scan being read: every row of the pass is rendered with that scan's data
+   for the row (here: the undifferenced row), because the output side keeps the input output_rows_ahead >= 1
+   rows ahead (read from jdcoefct.c decompress_data / jddiffct.c output_data by the translator) *)
+Theorem C09_display_pass_complete_partial : forall diffs ops,
+  display_pass output_rows_ahead diffs (brun output_pass_resets_lossless diffs ops) = map Some (undiff diffs None).
+Proof. exact (fun diffs ops => display_pass_complete output_rows_ahead diffs ops (le_n 1)). Qed.
+Print Assumptions C09_display_pass_complete_partial.
+
+(* look-ahead 0 (seeded change C07-5): rows are rendered before their data has been read *)
+Example C09_display_pass_zero_ahead_refuted :
+  display_pass 0 [10; 20; 30]%Z (brun false [10; 20; 30]%Z [Consume]) <> map Some (undiff [10; 20; 30]%Z None).
+Proof. exact display_pass_zero_ahead_refuted. Qed.
+
 (* (5') buffered-image mode, quantization tables (jdinput.c latch_quant_tables, get_dqt, jddctmgr start_pass):
    the multiplier tables used by the final output pass are those of the run without any early output pass,
    for every interleaving of output passes with DQT / SOS / data on the input side -- hence independent of
